@@ -217,6 +217,9 @@ fn build(tier: Tier) -> Vec<Scenario> {
             ));
         }
     }
+    // whole jobs with slow sources and timed batching: a watermark must not overtake data that
+    // is still buffered on its link
+    out.extend(crate::props::timed::scenarios("C06", tier == Tier::Quick, "C06"));
     out
 }
 
